@@ -277,3 +277,23 @@ def import_behaviours(workdir, ids=("a", "ab", "b", "ma"), maxitems=3, maxtriv=1
             j["id"] = "beh:import:%s" % hashlib.sha256(j["text"].encode()).hexdigest()[:12]
             behs.append(j)
     return r, behs
+
+
+MODE_CFG = ("SPECIFICATION Spec\nCONSTANTS MaxDepth = %d\n Wrappers = {\"args\", \"array\", \"paren\", \"block\", \"cb\"}\n"
+            " Chains = {\"bin\", \"dot\"}\n MaxW = %d\n Unit = %d\n GenOn = %s\n AsFoundM = {}\nINVARIANTS %s\nCHECK_DEADLOCK FALSE\n")
+MODE_INVS = "InvBreakSafety InvBalanced InvConservation InvIndentUnit InvHygiene InvFlatAtWidth"
+
+
+def mode_behaviours(workdir, depth, maxw=44, unit=2, gen=True, workers=8, timeout=1500):
+    """ModeMC: nested constructs (args / array / paren / block / content block) over a binary or dot chain — the Mode
+    lattice and the optional parentheses."""
+    cfg = MODE_CFG % (depth, maxw, unit, "TRUE" if gen else "FALSE", MODE_INVS + (" Gen" if gen else ""))
+    r = C.model_check("ModeMC", cfg, workdir, workers=workers, xmx="8g", timeout=timeout)
+    behs = []
+    if gen:
+        for g in C.parse_tlc_tuple_lines(r["out"], "GEN"):
+            j = json.loads(C.unquote_tla_string(g))
+            j["text"] = j["src"] + "\n"
+            j["id"] = "beh:mode:%s" % hashlib.sha256(j["text"].encode()).hexdigest()[:12]
+            behs.append(j)
+    return r, behs
